@@ -1,5 +1,6 @@
 """C17 — CSV export reproduces every element with its position and spectroscopic values."""
 import os
+import copy
 import csv
 import numpy as np
 import h5py
@@ -9,7 +10,7 @@ from util import call, quiet
 
 REQUIRED_THEOREMS = ['Usid.C17.split_join', 'Usid.C17.layout', 'Usid.C17.no_overwrite', 'Usid.C17.oversize_skipped',
                      'Usid.C17.no_temp_left']
-RULE = ('[also: double-precision values that need all 17 significant digits, compared bit for bit after parsing] [also: negative and fractional data values, file names with several dots / other extensions, the dataset in the root or three groups deep, float32 datasets around the 15 MiB gate, the tempfile default directory watched] generator datasets of integer-valued real data (int32 / float32 / float64), any dimension counts, sizes and '
+RULE = ('[also: reference values stored as integers that end in zeros when printed] [also: double-precision values that need all 17 significant digits, compared bit for bit after parsing] [also: negative and fractional data values, file names with several dots / other extensions, the dataset in the root or three groups deep, float32 datasets around the 15 MiB gate, the tempfile default directory watched] generator datasets of integer-valued real data (int32 / float32 / float64), any dimension counts, sizes and '
         'storage orders; default and explicit output paths (including one named temp.csv), pre-existing output files, '
         'a user file called temp.csv in the working directory, force in {F,T}, oversized (never written) datasets just above 15 MiB, between 15 and 16 MiB, at 16 MiB '
         'and beyond; the file-system model (written / skipped / refused, files afterwards) compared on every case; '
@@ -51,6 +52,13 @@ def generate(seed, tier):
                 case['oversize_n'] = rng.choice([3932161, 3932200, 4000000, 4194304])     # 15 MiB of float32 = 3932160
             if case['oversize_n'] != 2200000 or rng.random() < 0.6:
                 case['force'] = False          # a forced export of such a dataset writes ~90 MB: only a few of them
+        # reference values stored as INTEGERS, whole multiples of five (0, 10, 100 ... end in a zero when printed)
+        if not case['oversize'] and derived_rng(seed, 'C17i', i).random() < 0.3:
+            ds2 = copy.deepcopy(ds)
+            for side in ('pos', 'spec'):
+                ds2[side]['values'] = [[20 * v for v in vals] for vals in ds2[side]['values']]
+            ds2['val_dtype'] = 'i4'
+            case['ds'] = ds2
         cases.append(case)
     return cases
 
